@@ -178,9 +178,21 @@ func execOps(stream, in, outp string) {
 	out := wire.Create(outp)
 	defer out.Close()
 	s := newSUT("istio-system")
+	defer s.closeLive()
 	for _, f := range wire.ReadLines(in) {
 		out.Line(s.apply(f))
 		out.Flush()
+	}
+}
+
+func (s *sut) closeLive() {
+	if s.live != nil {
+		s.live.close()
+		s.live = nil
+	}
+	if s.liveAmb != nil {
+		s.liveAmb.close()
+		s.liveAmb = nil
 	}
 }
 
@@ -200,6 +212,7 @@ func (s *sut) apply(f []string) (out string) {
 		if len(f) > 3 {
 			root = wire.Dec(f[3])
 		}
+		s.closeLive()
 		*s = *newSUT(root)
 		return "ok"
 	case "pa":
@@ -207,7 +220,37 @@ func (s *sut) apply(f []string) (out string) {
 			return "bad-op"
 		}
 		s.add(parsePA(f))
+		if s.live != nil {
+			s.live.edit("create", s.pas[len(s.pas)-1])
+		}
+		if s.liveAmb != nil {
+			s.liveAmb.edit("create", s.pas[len(s.pas)-1])
+		}
 		return "ok"
+	case "pd":
+		// delete the i-th policy of the case (the later ones move up)
+		if len(f) != 2 {
+			return "bad-op"
+		}
+		i, _ := strconv.Atoi(f[1])
+		if i >= 0 && i < len(s.pas) {
+			p := s.pas[i]
+			s.pas = append(append([]paIn(nil), s.pas[:i]...), s.pas[i+1:]...)
+			s.ap, s.av = nil, nil
+			if s.live != nil {
+				s.live.edit("delete", p)
+			}
+			if s.liveAmb != nil {
+				s.liveAmb.edit("delete", p)
+			}
+		}
+		return "ok"
+	case "hc":
+		if len(f) != 6 {
+			return "bad-op"
+		}
+		p, _ := strconv.ParseUint(f[5], 10, 32)
+		return s.historyE2E(wire.Dec(f[1]), parseLabels(f[2]), wire.Dec(f[3]), f[4], uint32(p))
 	case "pu":
 		if len(f) != 4 {
 			return "bad-op"
@@ -217,6 +260,12 @@ func (s *sut) apply(f []string) (out string) {
 			s.pas[i].mtls, s.pas[i].ports = f[2], parsePorts(f[3])
 			s.pas[i].rv++
 			s.ap, s.av = nil, nil
+			if s.live != nil {
+				s.live.edit("update", s.pas[i])
+			}
+			if s.liveAmb != nil {
+				s.liveAmb.edit("update", s.pas[i])
+			}
 		}
 		return "ok"
 	case "q":
